@@ -214,6 +214,9 @@ class Tracer:
                 continue
             st = node
             if st["lhs"].get("p"):
+                if st["lhs"]["p"][0] == "*" and (self.fn.local_ty(local).startswith("&") or self.fn.local_ty(local).startswith("*")):
+                    # a store THROUGH the reference/pointer held by this local does not define the local itself
+                    continue
                 # partial assignment into the local: field-sensitive match when possible
                 lp = _proj_path(st["lhs"])
                 if _fields(path)[:len(_fields(lp))] == _fields(lp):
